@@ -1,9 +1,11 @@
 import CookModel.Driver.Num
+import CookModel.Driver.Syntax
 import CookModel.Driver.Builder
 /- Registry of line-protocol handlers. One line per area. -/
 namespace Cook.Driver
 def handlers : List (List String → Option String) := [
   handleNum,
+  handleSyntax,
   handleBuilder
 ]
 end Cook.Driver
